@@ -73,11 +73,21 @@ Fixpoint argmax_from (l : list Q) (i : nat) (best : nat) (bv : Q) : nat :=
 Definition argmax (l : list Q) : nat := match l with [] => 0%nat | x :: t => argmax_from t 1 0 x end.
 
 Inductive sel := SelErr | SelOk (mx mn : list nat).
-(* qlim == 2: fix the largest violation only.  `if k > len(mx)` (sic) : k = len(mx) falls into mx[k] -> IndexError *)
+(* qlim == 2: fix the largest violation only: `if k >= len(mx)` selects mn[k - len(mx)], else mx[k]
+   (after "fix: enforce_q_lims=2 no longer raises IndexError when a lower q limit is the largest violation") *)
+Definition viols (gens : list gen) (qg : list Q) (mx mn : list nat) : list Q :=
+  map (fun i => qsub (nthq qg i) (qmax_of gens i)) mx ++ map (fun i => qsub (qmin_of gens i) (nthq qg i)) mn.
 Definition select (qlim2 : bool) (gens : list gen) (qg : list Q) (mx mn : list nat) : sel :=
   if qlim2 then
-    let viol := map (fun i => qsub (nthq qg i) (qmax_of gens i)) mx ++ map (fun i => qsub (qmin_of gens i) (nthq qg i)) mn in
-    let k := argmax viol in
+    let k := argmax (viols gens qg mx mn) in
+    if Nat.leb (length mx) k then
+      match nth_error mn (k - length mx) with Some i => SelOk [] [i] | None => SelErr end
+    else match nth_error mx k with Some i => SelOk [i] [] | None => SelErr end
+  else SelOk mx mn.
+(* before the repair: `if k > len(mx)` : k = len(mx) fell into mx[k] -> IndexError *)
+Definition select_old (qlim2 : bool) (gens : list gen) (qg : list Q) (mx mn : list nat) : sel :=
+  if qlim2 then
+    let k := argmax (viols gens qg mx mn) in
     if Nat.ltb (length mx) k then
       match nth_error mn (k - length mx) with Some i => SelOk [] [i] | None => SelErr end
     else match nth_error mx k with Some i => SelOk [i] [] | None => SelErr end
@@ -160,3 +170,11 @@ Definition table_solve (tab : list (list nat * list Q)) (lim : list nat) : optio
   option_map snd (find (fun p => eq_natlist (fst p) lim) tab).
 Definition run_qloop (tab : list (list nat * list Q)) (qlim2 : bool) (gens : list gen) : out :=
   oqres gens (qrun (table_solve tab) qlim2 gens).
+
+(* ---------- solver bypass (powerflow.py:150-154, _bypass_pf_and_set_results :192-201): when no in-service bus is PV or PQ
+   (every bus carries an ext_grid or a slack gen) the Newton solver AND the q-limit loop are skipped; pfsoln is applied
+   once to the setpoint voltages.  G04b = the loop is actually run. *)
+Definition G04b (srcs : list vsrc) (nb : nat) : bool := negb (forallb (fun k => Nat.eqb (bus_type srcs k) 3) (seq 0 nb)).
+Definition run_q (srcs : list vsrc) (nb : nat) (solve : list nat -> option (list Q)) (qlim2 : bool) (gens : list gen) : qres :=
+  if G04b srcs nb then qrun solve qlim2 gens
+  else match solve [] with Some qg => QDone (mkS [] []) qg 1 | None => QErr 2 end.
